@@ -237,11 +237,15 @@ namespace nmtools::view
             if constexpr (meta::is_resizable_v<slices_type>) {
                 slices.resize(dim);
             }
+            // a negative axis counts from the end (as in numpy); without this it never matches any i
+            auto m_axis = static_cast<nm_index_t>(axis);
+            if (m_axis < 0) {
+                m_axis += static_cast<nm_index_t>(dim);
+            }
             for (size_t i=0; i<dim; i++) {
                 // index at axis i
                 auto s = at(indices_,i);
-                using common_t = meta::promote_index_t<decltype(axis),size_t>;
-                auto start = (common_t)i==(common_t)axis ? 0 : s;
+                auto start = static_cast<nm_index_t>(i)==m_axis ? 0 : s;
                 auto stop  = s + 1;
                 at(slices,i) = {start,stop};
             }
